@@ -11,6 +11,13 @@ C = {
  'C01': ('exploration', 'Seeded exploration: hostile datagrams (independent TLV mutator: drop/duplicate/empty/retype/truncate/garble/IPv6-only/corrupted flow descriptions, random bytes, truncations) injected into association/session histories of the real agent under the token scheduler; monitors: panic/Fatal of any agent task, liveness heartbeat on the same and another association, at most one response per datagram.', '6 (C01)', TECH + ' (seeded hostile-input histories + schedules, liveness monitors)'),
  'C02': ('exploration', 'Seeded exploration of request histories (all dispatched request types, 24-bit sequence numbers incl. 0 and 2^24-1, CP SEIDs, accepted and rejected requests, explicit duplicates, response-type messages) with the oracle evaluated on decoded bytes at the peer socket: exactly one response of the matching type/sequence, header SEID rules, establishment response content, addressing by UP F-SEID, CP F-SEID update.', '6 (C02)', TECH + ' (seeded request histories + schedules, protocol oracle at the peer socket)'),
  'C03': ('exploration', 'Seeded exploration: request histories incl. kill -9/restart of the agent at drawn scheduler steps against the populated datapath; after every accepted response the simulated BESS tables are compared with an independent reference image (boundary-packet classification around every live rule and every installed entry + exact FAR/QER entry sets).', '6 (C03)', TECH + ' (seeded histories + schedules + agent kill/restart, reference-model oracle)'),
+ 'C04': ('exploration', 'Seeded exploration on the P4Runtime datapath: histories over 1-4 sessions / 1-2 associations (shared gNB peers and application filters; QFI->TC map, slice id, default TC drawn per run) with establishment, FAR/QER/PDR modifications, deletion, kill -9 of the agent at a drawn scheduler step and restart against the same populated switch; after every accepted response the tables, meters and id bijections of the simulated switch (independent P4Info reader) are compared with the image of the live rules; stale entries of the killed incarnation must be cleared at start-up.', '6 (C04)', TECH + ' (seeded histories + schedules + agent kill/restart against a simulated P4Runtime switch, reference-image oracle)'),
+ 'C06': ('exploration', 'Seeded exploration, two layers: (api) 2-8 simulated tasks call LookupOrAllocIP / DeallocIP on the real IPPool under statement-level pre-emption; invoke/return stamped with the global step counter; history (<= 60 ops) checked for linearizability against a sequential pool model with porcupine (timeout = inconclusive, never reported), plus per-value invariants; (agent) concurrent associations attach/detach more UEs than the pool holds; no address held by two live sessions, exhaustion answered with the stated cause, all addresses back afterwards. The race-instrumented build is exercised by the same scenarios.', '6 (C06)', TECH + ' (seeded task interleavings, porcupine linearizability check of the recorded history against a reference pool)'),
+ 'C07': ('exploration', 'Seeded exploration: 1-3 associations establish 3-14 sessions with CHOOSE F-TEIDs, some rounds with all peers sending at the same instant; the per-association random source is honest or adversarial (cycle, constant, zero-first; rand.NewSource seam) and the TEID cursor is placed just below the 32-bit wrap-around; oracle: pairwise distinct UP F-SEIDs and TEIDs among live sessions, never 0, Created PDR TEIDs equal the values programmed into the datapath.', '6 (C07)', TECH + ' (seeded schedules + adversarial randomness fault, uniqueness oracle)'),
+ 'C08': ('exploration', 'Seeded exploration: 1-5 PFD Management Requests (accepted ones replacing the application table; ones rejected half-way) interleaved with establishments whose PDRs name application ids; the filter observed at the simulated datapath must be the flow description currently provisioned for that application and direction (independent reference reader of the flow-description grammar), replaced wholesale by a later accepted PFD request; unknown application ids rejected.', '6 (C08)', TECH + ' (seeded provisioning/establishment histories, reference flow-description reader as oracle)'),
+ 'C09': ('exploration', 'Seeded exploration on the BESS datapath: 2-8 sessions with 0-4 QERs, rates over the 40-bit range with boundary bias, both gate bits, QFIs 0..63, per-QFI burst configuration drawn per run, QER lists per PDR drawn to hit the application/session QER shapes; the QER entries of the simulated datapath must carry the stated unit arithmetic (independent big-integer re-computation), gate status and QFI. UP4-side QER effects are judged by the C04 image oracle.', '6 (C09)', TECH + ' (seeded session histories with drawn configuration, arithmetic reference oracle at the datapath)'),
+ 'C15': ('fault_enumeration', 'Scenario family on the P4Runtime datapath with small counter/meter arrays; for every scenario (one choice stream) the run is repeated with variant k=0 fault-free and k>0 failing exactly the k-th Write RPC after start-up (transport error, lost response whose effect was applied, per-update P4 error): every Write position of the scenario is enumerated. Oracle: the request hit by the fault is rejected, no id of the five id spaces is referenced by two owners, nothing leaks (all ids back after the sessions are deleted), a following attach succeeds.', '6 (C15)', TECH + ' (enumeration of every Write-RPC fault position per seeded scenario)'),
+ 'C16': ('exploration', 'Seeded exploration of UP4 request histories with boundary inputs (precedence 0,1,65533..65535, QFI 0..63, slice 0..15, TC 0..3, 40-bit rates, port ranges, prefix lengths); every update of every Write the simulated switch receives is validated against the P4Info it serves (table/field/action/param ids, match kinds, bit widths, canonical byte strings, priorities iff ternary/range), independently of the generated p4constants; plus a static regeneration step: cmd/p4info_code_gen is re-run twice on the shipped P4Info and must reproduce the committed constants byte for byte.', '6 (C16)', TECH + ' (seeded histories; per-Write validation monitor in the simulated switch) + generator re-run comparison'),
  'C05': ('exploration', 'Seeded exploration of more attach/detach cycles than the UE pool has addresses, each ended by one of the five endings (deletion, release, read timeout, heartbeat failure, report answered with context-not-found) after accepted/rejected requests, with optional datagram loss; after each ending: no datapath entry of the session, pool and TEID generator back to empty (white-box bridge), no session record, gauge equals live sessions.', '6 (C05)', TECH + ' (seeded cycles + schedules + peer silence / loss faults, conservation oracle)'),
  'C10': ('exploration', 'Seeded exploration of teardown collisions: per association one trigger of {release, read timeout, heartbeat failure, none} plus optional SIGTERM, timed on the virtual clock to collide, with requests in flight, PCT / statement-level pre-emption and faults (loss, agent stall, slow BESS, ICMP unreachable); oracle: no panic, exactly-once deletes per key, nothing left, re-association works, others unaffected, Run() returns within the stated virtual-time bound.', '6 (C10)', TECH + ' (seeded schedules incl. PCT + timed trigger collisions + faults, exactly-once and bounded-liveness oracles)'),
  'C12': ('fault_enumeration', 'For drawn retry counts / timeouts / intervals: EVERY loss position k=1..N+1 of the heartbeat answer, plus never, late, duplicated and wrong-sequence answers, counted and timed on the virtual clock at the peer; peer heartbeats before/after association (Recovery Time Stamp stability, postponement); association gate vs datapath state flapping around the request; feature bits vs configuration; agent-initiated association answered at the k-th transmission or never.', '6 (C12)', TECH + ' (enumerated loss positions on a virtual clock, seeded schedules)'),
